@@ -18,6 +18,18 @@ func init() {
 	intrinsics["time.AfterFunc"] = func(m *Machine, th *Thread, fn *ssa.Function, a []Value, site ssa.Instruction) Value {
 		timerT := fn.Signature.Results().At(0).Type().(*types.Pointer).Elem()
 		obj := m.newObj(timerT, m.zero(timerT), "time.AfterFunc")
+		if m.P.Cfg.VirtualAfterFunc {
+			// on the virtual clock: the callback runs, in its own goroutine, when the deadline
+			// falls due (every goroutine blocked, or verifAdvance), unless stopped before
+			if m.vtimers == nil {
+				m.vtimers = map[*Obj]*vTimer{}
+			}
+			t := &vTimer{deadline: m.vnow + m.intArg(a[0]), armed: true, seq: len(m.vtimerList), fn: a[1], site: site, vc: vcCopy(th.vc)}
+			m.vcTick(th)
+			m.vtimers[obj] = t
+			m.vtimerList = append(m.vtimerList, t)
+			return &Ptr{Obj: obj}
+		}
 		st := &afterFuncState{}
 		if m.afterFuncs == nil {
 			m.afterFuncs = map[*Obj]*afterFuncState{}
@@ -75,6 +87,10 @@ type vTimer struct {
 	armed    bool
 	seq      int
 	period   int64 // > 0: a ticker, re-armed at every tick
+	// time.AfterFunc on the virtual clock: the callback, its call site and the creator's clock
+	fn   Value
+	site ssa.Instruction
+	vc   []int
 }
 
 func (m *Machine) vtimerOf(p *Ptr) *vTimer {
@@ -92,6 +108,19 @@ func (m *Machine) vtimerFire(t *vTimer) {
 	if t.period > 0 {
 		t.deadline += t.period
 		t.armed = true
+	}
+	if t.fn != nil {
+		// AfterFunc: the callback runs in a goroutine of its own, ordered after the creation of
+		// the timer (no scheduling point here: the new goroutine is picked up by the scheduler)
+		nt := m.newThread()
+		m.vcJoin(nt, t.vc)
+		fn, site := t.fn, t.site
+		m.wg.Add(1)
+		go m.threadMain(nt, func() {
+			m.callFn(nt, fn, nil, site)
+		})
+		nt.started = true
+		return
 	}
 	if len(t.ch.buf) < t.ch.cap {
 		t.ch.buf = append(t.ch.buf, sendItem{v: m.zero(t.ch.et)})
